@@ -570,10 +570,12 @@ def isi_case(draw, tier="quick"):
         st.just([]),
         st.lists(ix, min_size=1, max_size=3),
         st.lists(ix, min_size=2, max_size=8),
+        st.lists(ix, min_size=3, max_size=8),
         st.lists(ix, min_size=4, max_size=tmax),
+        st.lists(ix, min_size=6, max_size=tmax),
     )
     return {
-        "pop": draw(st.sampled_from([[1], [2], [3], [2, 2], [3, 2], [4], [2, 1, 2], [3], [5]])),
+        "pop": draw(st.sampled_from([[1], [2], [3], [2, 2], [3, 2], [4], [2, 1, 2], [3], [5], [2], [1, 3]])),
         "T": T,
         "dt": draw(st.sampled_from([1.0, 0.5, 0.25, 2.0, 1.3, 0.1])),
         "time_first": draw(st.booleans()),
